@@ -103,6 +103,29 @@ class C16(Prop):
         out.append(case('h = {"a":1,"b":2}; n = 0; foreach k, v in h { foreach k2, v2 in h { n++; } } return n;', "i4", "nested-foreach"))
         # hash literal: later duplicates, key types distinct
         out.append(case('h = {1: "i", "1": "s", 1.5: "f"}; return [h[1], h["1"], h[1.5]];', enc_value(["i", "s", "f"]), "hash-types"))
+        # `in` with arrays and hashes as elements: found only if present - member by member, a string is not the value it spells
+        def same(x, y):
+            if type(x) != type(y):
+                return False
+            if isinstance(x, list):
+                return len(x) == len(y) and all(same(a, b) for a, b in zip(x, y))
+            if isinstance(x, dict):
+                return len(x) == len(y) and all(any(type(k) == type(k2) and k == k2 and same(v, v2) for k2, v2 in y.items()) for k, v in x.items())
+            return x == y
+        COMPOSITES = [[1, 2], ["1, 2"], ["1", "2"], [1, "2"], [[1, 2]], ["[1, 2]"], [[1], 2], ["a, b"], ["a", "b"], [], [[]], ["[]"], [""], [1], ["1"], [True], ["true"],
+                      {"a": 1}, {"a": "1"}, {"a": 1, "b": 2}, {"a": "1, b: 2"}, {1: "x"}, {"1": "x"}, {}, {"a": [1, 2]}, {"a": ["1, 2"]}, {"k": {"a": 1}}, {"k": {"a": "1"}},
+                      [{"a": 1}], [{"a": "1"}], ["{a: 1}"], [1, [2, [3]]], [1, [2, ["3"]]], ["1, [2, [3]]"], [None], ["null"], [1.5], ["1.5"]]
+        for x in COMPOSITES:
+            for _ in range(6 if tier == "thorough" else 2):
+                hay = [rng.choice(COMPOSITES) for _ in range(rng.randint(0, 4))]
+                for h2 in (hay, [y for y in hay if not same(x, y)], hay + [x]):
+                    present = any(same(x, y) for y in h2)
+                    out.append(case("return (%s in %s);" % (lit(x), lit(h2)), "b1" if present else "b0", "in-composite"))
+                    out.append(case("x = %s; h = %s; n = 0; foreach y in h { if (x in [y]) { n++; } } return n;" % (lit(x), lit(h2)),
+                                    "i%d" % sum(1 for y in h2 if same(x, y)), "in-composite"))
+            for y in COMPOSITES:
+                if lit(x) != lit(y) and rng.random() < (1.0 if tier == "thorough" else 0.15):
+                    out.append(case("return [%s in [%s], %s in [%s]];" % (lit(x), lit(y), lit(y), lit(x)), enc_value([same(x, y), same(y, x)]), "in-composite"))
         # random container programs judged against the model
         import gen
         for _ in range(30000 if tier == "thorough" else 300):
